@@ -7,7 +7,7 @@ PROFILE = {
     "n_requests": (0, 120),
     "dts": [1, 7, 30, 60, 61, 97, 300],
     "timeouts": [1, 59, 60, 600, 601],
-    "starts": [0, 0, 1000, 3600, 86399],
+    "starts": [0, 0, 900, 1000, 3600, 9900, 86399, 99900],
     "steps": (30, 140),
     "network": "euclidean",
     "n_stations": (1, 5),
